@@ -20,6 +20,9 @@ type XField struct {
 	Ext      bool
 	Desc     string
 	Attrs    string // further attributes, printed verbatim (display, units, print_format, ...)
+	// CommentBefore is the text of an XML comment printed in front of the field (and in front of the extensions
+	// marker when this is the first extension field): comments are not content, whatever they look like
+	CommentBefore string
 }
 
 // XMLType renders the type attribute.
@@ -164,6 +167,9 @@ func (f XFile) XML() string {
 		}
 		inExt := false
 		for _, fl := range m.Fields {
+			if fl.CommentBefore != "" {
+				fmt.Fprintf(&b, "      <!--%s-->\n", fl.CommentBefore)
+			}
 			if fl.Ext && !inExt {
 				b.WriteString("      <extensions/>\n")
 				inExt = true
